@@ -8,6 +8,10 @@ dst = f'/verif/seeded/{pid}'
 os.makedirs(dst, exist_ok=True)
 for f in ('patch.diff', 'demo.py', 'NOTES.md'):
     shutil.copy(os.path.join(src, f), os.path.join(dst, f))
+demo = os.path.join(dst, 'demo.py')
+text = open(demo).read().replace(f"sys.path.insert(0, '/tmp/seed/{pid}')",
+                                 f"sys.path.insert(0, __import__('os').environ.get('SEED_REPO', '/tmp/seed/{pid}'))")
+open(demo, 'w').write(text)
 notes = open(os.path.join(src, 'NOTES.md')).read()
 meta = {
     'property': pid,
